@@ -52,8 +52,9 @@ def transform(inst, kind, rng_seed):
     m = {g: names[i] for i, g in enumerate(order)}
     _rename(t, m)
     info['map'] = m
-  elif kind == 'scale':
-    c = 2.0 ** rng.choice([-3, -1, 2, 5, 10, -12, -20])
+  elif kind in ('scale', 'scale_tiny'):
+    # a change of monetary unit: moderate, or so small that absolute tolerances / fixed-decimal rounding would show
+    c = 2.0 ** (rng.choice([-3, -1, 2, 5, 10]) if kind == 'scale' else rng.choice([-12, -20, -30]))
     t['rows'] = [[g, d, v * c] for g, d, v in t['rows']]
     info['c'] = c
     t['scale_budget'] = c
@@ -81,7 +82,7 @@ def run_pair(job):
     for j, kind in enumerate(kinds):
       t, info = transform(inst, kind, f'{iid}-{j}')
       res2 = dict(resolved)
-      if kind == 'scale' and res2.get('budget_range') is not None:
+      if kind in ('scale', 'scale_tiny') and res2.get('budget_range') is not None:
         res2['budget_range'] = [b * info['c'] for b in res2['budget_range']]
       out = {w: run_one(t, res2, w) for w in ('exhaustive', 'greedy')}
       rec['pairs'].append((info, out))
@@ -147,15 +148,34 @@ def compare(base, other, info, has_budget):
   return None
 
 
+def feasible(inst):
+  from matched_markets.methodology import tbrmmdata, tbrmatchedmarkets, tbrmmdesignparameters
+  try:
+    probe = tbrmmdesignparameters.TBRMMDesignParameters(n_test=int(inst['params']['n_test']), iroas=inst['params']['iroas'],
+                                                         n_pretest_max=int(inst['params'].get('n_pretest_max') or 90))
+    resolved = {k: v for k, v in se.resolve_budget(inst, probe).items() if v is not None}
+    mm = tbrmatchedmarkets.TBRMatchedMarkets(tbrmmdata.TBRMMData(se.build_frame(inst), 'response', se.build_elig(inst)),
+                                            se.build_params(inst, resolved))
+    return mm.count_max_designs() > 0
+  except Exception:
+    return False
+
+
 def run(out, tier, model_ok=True):
   rng = core.rng_for(PROP)
-  n = 40 if tier == 'quick' else 600
+  n = 60 if tier == 'quick' else 600
   jobs = []
-  for i in range(n):
-    inst = se.gen_instance(rng, tier, max_admitted=5, theme=rng.choice(['default', 'default', 'share_lo', 'tfixed_budget']))
+  i = 0
+  while len(jobs) < n:
+    i += 1
+    inst = se.gen_instance(rng, tier, max_admitted=5, theme=rng.choice(['default', 'default', 'share_lo', 'tfixed_budget', 'highcorr_budget', 'highcorr_budget']))
     if inst['params'].get('iroas') in (0, 0.0):
       inst['params']['iroas'] = 1.0
-    kinds = ['shuffle', 'shift', 'rename', 'scale', 'int_dates']
+    # three quarters of the instances are ones that admit at least one design (generation aid only: an invariance
+    # comparison of two empty results says little); the rest are taken as they come, errors and empty results included
+    if not feasible(inst) and rng.random() < 0.75 and i < 20 * n:
+      continue
+    kinds = ['shuffle', 'shift', 'rename', 'scale', 'scale_tiny', 'int_dates']
     if all(g.isdigit() for g in inst['geos']) or rng.random() < 0.5:
       kinds.append('int_ids')
     jobs.append((f'm{i}', inst, kinds))
@@ -185,9 +205,9 @@ def run(out, tier, model_ok=True):
         if res[w].get('ok'):
           nontriv = True
     out.count((r['iid'], json.dumps(r['resolved'], sort_keys=True)) if nontriv else None)
-  out.rule = (f'{n} search instances x 4-5 transformations (row shuffle, date shift by 1/7/365/1000 days, dates as plain day numbers starting at 3/95/990, renaming incl. names that reverse '
+  out.rule = (f'{n} search instances x 6-7 transformations (row shuffle, date shift by 1/7/365/1000 days, dates as plain day numbers starting at 3/95/990, renaming incl. names that reverse '
               'the alphabetical order and eligibility renamed alike, integer-dtype IDs, scaling of every response and of the budget range by '
-              '2^k) x both searches, real runs on fresh objects compared design by design (groups up to the renaming, test outcomes and '
+              '2^k for k in -3..10 and for k in {-12,-20,-30}) x both searches, real runs on fresh objects compared design by design (groups up to the renaming, test outcomes and '
               'rounded correlation identical, impact-based quantities scaled; tie classes may be permuted); '
               'non-trivial = some search returned designs; distinct by (instance, parameters)')
   out.extra.update({'instances': n, 'pair_comparisons_by_transformation': by_kind})
